@@ -115,7 +115,7 @@ func genParseCase(rt *rapid.T) *ParseCase {
 				pc.Input = out
 				pc.Desc = "input document: " + desc
 			} else {
-				pc.Input = vcase.YAMLShapes[op%len(vcase.YAMLShapes)]
+				pc.Input = strings.TrimPrefix(vcase.YAMLShapes[op%len(vcase.YAMLShapes)], "TEXT:")
 				pc.Desc = "input document replaced by shape " + pc.Input
 			}
 		} else {
